@@ -87,6 +87,9 @@ func c02Ops() []c02op {
 	ls.bad = []string{"x:1,1,2"}
 	o = append(o, ls)
 	o = append(o, f("GRU", "hidden_size=2", "x,W,R,,,h", "y,yh", []string{"x:1,2,2", "W:1,6,2", "R:1,6,2", "h:1,2,2"}, "W", "R", "h"))
+	// exactly one of the two initial states of an LSTM
+	o = append(o, f("LSTM", "hidden_size=2", "x,W,R,,,h", "y,yh,yc", []string{"x:1,2,2", "W:1,8,2", "R:1,8,2", "h:1,2,2"}, "W", "R", "h"))
+	o = append(o, f("LSTM", "hidden_size=2", "x,W,R,,,,c", "y,yh,yc", []string{"x:1,2,2", "W:1,8,2", "R:1,8,2", "c:1,2,2"}, "W", "R", "c"))
 	o = append(o, f("LSTM", "hidden_size=2", "x,W,R,B,,h,c,P", "y,yh,yc", []string{"x:2,2,2", "W:1,8,2", "R:1,8,2", "B:1,16", "h:1,2,2", "c:1,2,2", "P:1,6"}, "W", "R", "B", "h", "c", "P"))
 	for _, kd := range []string{"keepdims=1", "keepdims=0"} {
 		o = append(o, f("ArgMax", "axis=1;"+kd, "x", "o", []string{"x:2,3"}, "x"))
@@ -124,6 +127,10 @@ func c02Ops() []c02op {
 	o = append(o, f("ConstantOfShape", "", "s", "o", []string{"s:2:i64=2,3"}, "s"))
 	o = append(o, f("LinearRegressor", "coefficients=1,2,3,4;intercepts=1,2;targets=2", "x", "o", []string{"x:2,2"}, "x"))
 	o = append(o, f("Scaler", "offset=1,2;scale=3,4", "x", "o", []string{"x:2,2"}, "x"))
+	// one sample passed as a plain vector (the attribute vectors already have the operand's shape: nothing to broadcast)
+	o = append(o, f("Scaler", "offset=1,2;scale=3,4", "x", "o", []string{"x:2"}, "x"))
+	o = append(o, f("Scaler", "offset=5;scale=2", "x", "o", []string{"x:1"}, "x"))
+	o = append(o, f("LinearRegressor", "coefficients=1,2,3,4;intercepts=1,2;targets=2", "x", "o", []string{"x:1,2"}, "x"))
 	return o
 }
 
@@ -131,9 +138,15 @@ func init() {
 	Plans["C02"] = func(o Options) *Plan { return c02Plan(o, "C02", "gonnx.H_C02") }
 	Plans["C17"] = func(o Options) *Plan {
 		p := c02Plan(o, "C17", "gonnx.H_C17")
+		kept := p.Jobs[:0]
 		for _, j := range p.Jobs {
+			if _, ok := j.Case["defaulted"]; ok {
+				continue // a history of C02 only
+			}
 			j.Case["sample"] = ""
+			kept = append(kept, j)
 		}
+		p.Jobs = kept
 		for _, s := range []struct {
 			name   string
 			inputs []string
@@ -287,9 +300,25 @@ func c02Plan(o Options, prop, harness string) *Plan {
 			cm["inputsBad"] = []string{}
 			cm["lazyT"] = ""
 			p.Jobs = append(p.Jobs, Job{Harness: harness, Case: cm})
+			// the same graph with its float initializers ALSO declared as graph inputs (defaults): one Run overrides
+			// them, the next one leaves them to the defaults again
+			var defaulted []string
+			for _, s := range inits {
+				if !strings.Contains(s, ":i64") {
+					defaulted = append(defaulted, s)
+				}
+			}
+			if len(defaulted) > 0 {
+				cm2 := map[string]interface{}{}
+				for k, x := range cm {
+					cm2[k] = x
+				}
+				cm2["defaulted"] = defaulted
+				p.Jobs = append(p.Jobs, Job{Harness: harness, Case: cm2})
+			}
 		}
 		p.Bounds = []string{
-			"one inductive step plus a concrete history: for each model, Run(A), a failing Run (an input missing), Run(B) (other values, for several operators another batch size) compared with a freshly loaded model, Run(A) again with the very same tensor objects compared with the first result, and a Run fed with an output of the first Run; after every Run the caller's tensors and every weight are compared with snapshots (shape, strides, dtype, elements) and the frame monitor must have seen no write to them",
+			"one inductive step plus a concrete history: for each model, Run(A), a failing Run (an input missing), Run(B) (other values, for several operators another batch size) compared with a freshly loaded model, Run(A) again with the very same tensor objects compared with the first result, a Run fed with an output of the first Run, and (multi-node graphs) a Run that overrides initializers declared as defaulted graph inputs followed by one that leaves them to the defaults; after every Run the caller's tensors and every weight are compared with snapshots (shape, strides, dtype, elements) and the frame monitor must have seen no write to them",
 			"models: single-node graphs for all 55 operators (several attribute/shape variants; every input that can be a weight once supplied by the caller and once as initializer) plus nine multi-node graphs (six pass a weight through an operator that may return its input itself, as an intermediate value); every float/bool element symbolic (exact real arithmetic; IEEE for Cast), integer-typed shape/axes/index tensors concrete",
 		}
 		p.Outside = []string{"histories longer than five Runs (covered by induction on the frame condition: a Run that writes nothing reachable from the Model or the caller's tensors starts from the state a fresh Model starts from)", "the sample .onnx files (their operators are covered one by one)", "tensor extents > 4"}
